@@ -1,1 +1,197 @@
-//! c06 — harnesses not written yet.
+//! C06 — evaluation steps evaluate everyone once and the evaluation count is exact.
+//! Code: mahf::components::evaluation::PopulationEvaluator::{init,require,execute}, mahf::problems::evaluate::{Sequential::evaluate,ObjectiveFunction}, mahf::state::common::{Evaluator,Evaluations}, mahf::State::holding
+//! Out: the Parallel evaluator (rayon threads: no concurrency model in the engine); populations larger than 3; whole-run exactness is an induction (every other shipped component makes no objective call: not decided here); Evaluations within 3 of u32::MAX (overflow panic)
+//! Assume: objective function = symbolic table over (solution & 3) with a call counter per population slot (solutions are tagged 0..n); one evaluation step from an arbitrary population (evaluated or not) and an arbitrary previous counter
+use mahf::components::evaluation::PopulationEvaluator;
+use mahf::components::Component;
+use mahf::identifier::Global;
+use mahf::problems::{Evaluate, ObjectiveFunction, Problem, Sequential};
+use mahf::state::common::{Evaluations, Evaluator, Populations};
+use mahf::{Individual, SingleObjective, State};
+
+use crate::problems::obj;
+use crate::sym;
+
+static mut TABLE: [f64; 4] = [0.0; 4];
+static mut CALLS: [u8; 4] = [0; 4];
+static mut TOTAL: u32 = 0;
+
+pub struct CountP;
+impl Problem for CountP {
+    type Encoding = u8;
+    type Objective = SingleObjective;
+    fn name(&self) -> &str {
+        "CountP"
+    }
+}
+impl ObjectiveFunction for CountP {
+    fn objective(&self, solution: &u8) -> SingleObjective {
+        unsafe {
+            CALLS[(*solution & 3) as usize] += 1;
+            TOTAL += 1;
+            obj(TABLE[(*solution & 3) as usize])
+        }
+    }
+}
+type Ind = Individual<CountP>;
+
+fn setup() {
+    unsafe {
+        TABLE = [sym::legal_f64(), sym::legal_f64(), sym::legal_f64(), sym::legal_f64()];
+        CALLS = [0; 4];
+        TOTAL = 0;
+    }
+}
+/// Population of n individuals with solutions 0..n; each arbitrarily unevaluated, or evaluated
+/// with an arbitrary (possibly stale) value.
+fn pop(n: usize) -> Vec<Ind> {
+    let mut v = Vec::with_capacity(4);
+    let mut i = 0;
+    while i < n {
+        if sym::bool() {
+            v.push(Individual::new(i as u8, obj(sym::legal_f64())));
+        } else {
+            v.push(Individual::new_unevaluated(i as u8));
+        }
+        i += 1;
+    }
+    v
+}
+fn all_fresh(p: &[Ind], n: usize) {
+    assert!(p.len() == n, "the population keeps its size");
+    let mut i = 0;
+    while i < n {
+        assert!(*p[i].solution() == i as u8, "order and solutions are kept");
+        assert!(p[i].is_evaluated(), "everyone is evaluated afterwards");
+        unsafe {
+            assert!(p[i].objective().value().to_bits() == TABLE[i].to_bits(), "with the problem's objective value for ITS solution");
+            assert!(CALLS[i] == 1, "each individual is evaluated exactly once");
+        }
+        i += 1;
+    }
+    unsafe { assert!(TOTAL == n as u32, "the objective function is invoked exactly once per individual") };
+}
+
+fn sequential(n: usize) {
+    setup();
+    let mut p = pop(n);
+    let mut s: State<CountP> = State::new();
+    let mut ev = Sequential::<CountP>::new();
+    ev.evaluate(&CountP, &mut s, &mut p);
+    all_fresh(&p, n);
+    vcover!(true, "reached");
+    std::mem::forget((p, s));
+}
+/// @h tier=quick bound="Sequential::evaluate on 0 individuals" unwind=3
+#[cfg_attr(kani, kani::proof)]
+#[cfg_attr(kani, kani::unwind(3))]
+pub fn h_c06_sequential_0() {
+    sequential(0)
+}
+/// @h tier=quick bound="Sequential::evaluate on 2 individuals, each arbitrarily (un)evaluated before" unwind=5 cost=2
+#[cfg_attr(kani, kani::proof)]
+#[cfg_attr(kani, kani::unwind(5))]
+pub fn h_c06_sequential_2() {
+    sequential(2)
+}
+/// @h tier=quick bound="Sequential::evaluate on 3 individuals" unwind=6 cost=3
+#[cfg_attr(kani, kani::proof)]
+#[cfg_attr(kani, kani::unwind(6))]
+pub fn h_c06_sequential_3() {
+    sequential(3)
+}
+
+fn step(n: usize, height2: bool) {
+    setup();
+    let prev = sym::u32();
+    sym::assume(prev <= u32::MAX - 3);
+    let mut pops = Populations::<CountP>::new();
+    if height2 {
+        pops.push(vec![Individual::new_unevaluated(3u8)]);
+    }
+    pops.push(pop(n));
+    let mut s: State<CountP> = State::new();
+    s.insert(Evaluations(prev));
+    s.insert_evaluator(Sequential::<CountP>::new());
+    s.insert(pops);
+    let c = PopulationEvaluator::<Global>::from_params();
+    assert!(Component::<CountP>::require(&c, &CountP, &s.requirements()).is_ok(), "requirements are met");
+    let r = Component::<CountP>::execute(&c, &CountP, &mut s);
+    assert!(r.is_ok(), "the evaluation step succeeds");
+    {
+        let p = s.populations();
+        assert!(p.len() == if height2 { 2 } else { 1 }, "the stack keeps its height (an empty population stays where it is)");
+        all_fresh(p.current(), n);
+        if height2 {
+            assert!(p.peek(1).len() == 1 && !p.peek(1)[0].is_evaluated(), "populations underneath are not evaluated");
+        }
+    }
+    assert!(s.try_get_value::<Evaluations>().ok() == Some(prev + n as u32), "the counter advances by exactly the population size");
+    assert!(s.contains::<Evaluator<CountP, Global>>(), "the evaluator is back in the state");
+    vcover!(true, "reached");
+    std::mem::forget(s);
+}
+/// @h tier=quick bound="evaluation step: empty current population on a stack of height 2; any previous count" unwind=4 cost=4 mem=10
+#[cfg_attr(kani, kani::proof)]
+#[cfg_attr(kani, kani::unwind(4))]
+pub fn h_c06_step_0() {
+    step(0, true)
+}
+/// @h tier=quick bound="evaluation step: 1 individual; any previous count" unwind=4 cost=4 mem=10
+#[cfg_attr(kani, kani::proof)]
+#[cfg_attr(kani, kani::unwind(4))]
+pub fn h_c06_step_1() {
+    step(1, false)
+}
+/// @h tier=quick bound="evaluation step: 2 individuals (each arbitrarily (un)evaluated before) on a stack of height 2; any previous count" unwind=5 cost=5 mem=12 timeout=600
+#[cfg_attr(kani, kani::proof)]
+#[cfg_attr(kani, kani::unwind(5))]
+pub fn h_c06_step_2() {
+    step(2, true)
+}
+/// @h tier=thorough bound="evaluation step: 3 individuals; any previous count" unwind=6 cost=8 mem=20 timeout=1800
+#[cfg_attr(kani, kani::proof)]
+#[cfg_attr(kani, kani::unwind(6))]
+pub fn h_c06_step_3() {
+    step(3, false)
+}
+
+/// @h tier=quick bound="empty stack: the step is a no-op" unwind=4 cost=3
+#[cfg_attr(kani, kani::proof)]
+#[cfg_attr(kani, kani::unwind(4))]
+pub fn h_c06_step_empty_stack() {
+    setup();
+    let prev = sym::u32();
+    let mut s: State<CountP> = State::new();
+    s.insert(Evaluations(prev));
+    s.insert_evaluator(Sequential::<CountP>::new());
+    s.insert(Populations::<CountP>::new());
+    let c = PopulationEvaluator::<Global>::from_params();
+    assert!(Component::<CountP>::execute(&c, &CountP, &mut s).is_ok(), "no population: nothing to do");
+    assert!(s.populations().is_empty() && s.try_get_value::<Evaluations>().ok() == Some(prev), "nothing changed");
+    unsafe { assert!(TOTAL == 0, "no objective call") };
+    vcover!(true, "reached");
+    std::mem::forget(s);
+}
+
+#[derive(Default, Copy, Clone, serde::Serialize)]
+pub struct OtherId;
+
+/// @h tier=quick bound="requirements: no evaluator / evaluator under another identifier / no population stack => Err before anything executes" unwind=4 cost=3
+#[cfg_attr(kani, kani::proof)]
+#[cfg_attr(kani, kani::unwind(4))]
+pub fn h_c06_missing_evaluator() {
+    let c = PopulationEvaluator::<Global>::from_params();
+    let mut s: State<CountP> = State::new();
+    s.insert(Populations::<CountP>::new());
+    assert!(Component::<CountP>::init(&c, &CountP, &mut s).is_ok(), "init succeeds");
+    assert!(s.try_get_value::<Evaluations>().ok() == Some(0), "init starts the counter at zero");
+    assert!(Component::<CountP>::require(&c, &CountP, &s.requirements()).is_err(), "no evaluator registered: the requirement check fails");
+    s.insert_evaluator_as::<OtherId>(Sequential::<CountP>::new());
+    assert!(Component::<CountP>::require(&c, &CountP, &s.requirements()).is_err(), "an evaluator under another identifier does not satisfy the requirement");
+    assert!(Component::<CountP>::require(&PopulationEvaluator::<OtherId>::from_params(), &CountP, &s.requirements()).is_ok(), "the matching identifier does");
+    s.insert_evaluator(Sequential::<CountP>::new());
+    assert!(Component::<CountP>::require(&c, &CountP, &s.requirements()).is_ok(), "with the evaluator the requirement holds");
+    vcover!(true, "reached");
+    std::mem::forget(s);
+}
